@@ -4,7 +4,7 @@
 (* The value inserted by step i is 1000 + i; initial entries have value = key code.                    *)
 EXTENDS NameTree, Json
 CONSTANTS NB,        \* bases 1..NB
-          OpKinds,   \* subset of {"add", "addu", "rem"}
+          OpKinds,   \* subset of {"add", "addu", "rem", "sync"}; "sync" = persist the document and continue on the re-read tree
           MaxLen,    \* history length
           MaxLevel,  \* bound on rename levels
           Inits,     \* initial trees (names in Shapes)
@@ -18,6 +18,7 @@ L(keys) == [leaf |-> keys]
 N(kids) == [kids |-> kids]
 Shapes == [ empty |-> L(<<>>),
             one   |-> L(<<32, 48, 64>>),
+            split |-> N(<< L(<<16, 32>>), L(<<48, 64>>) >>),          \* what four inserts into an empty tree produce
             two   |-> N(<< L(<<16, 32>>), L(<<33, 48, 64>>), L(<<80, 81>>) >>),
             deep  |-> N(<< N(<< L(<<16>>), L(<<17, 32, 33>>) >>),
                            N(<< L(<<48, 49>>), L(<<50, 64>>), L(<<65, 80, 96>>) >>),
@@ -41,7 +42,8 @@ AddBases == IF pat = "rand" THEN 1..NB ELSE {PatBase(pat, pos)}
 (* one abstract step: the map after op o (the i-th op) applied to mm, and the expected observation *)
 StepMap(mm, o, i) == CASE o.op = "add"  -> AddPlain(mm, o.k, 1000 + i)
                        [] o.op = "addu" -> AddUniq(mm, BaseOf(o.k), 1000 + i)
-                       [] OTHER         -> Del(mm, o.k)
+                       [] o.op = "rem"  -> Del(mm, o.k)
+                       [] OTHER         -> mm               \* "sync": writing and re-reading changes nothing
 StepExp(mm, o, i) == LET m2 == StepMap(mm, o, i) IN
   [keys |-> SortedKeys(m2), vals |-> ValsOf(m2),
    ok    |-> IF o.op = "rem" THEN o.k \in DOMAIN mm ELSE TRUE,
@@ -56,7 +58,9 @@ Do(o) == hist' = Append(hist, o) /\ m' = StepMap(m, o, Len(hist) + 1) /\ last' =
 DoAdd  == "add" \in OpKinds /\ pos' = pos + 1 /\ \E b \in AddBases : Do([op |-> "add", k |-> Code(b, 0)])
 DoAddU == "addu" \in OpKinds /\ pos' = pos + 1 /\ \E b \in AddBases : HasFree(m, b, MaxLevel) /\ Do([op |-> "addu", k |-> Code(b, 0)])
 DoRem  == "rem" \in OpKinds /\ pos' = pos /\ \E k \in {Code(b, 0) : b \in 1..NB} \cup DOMAIN m : Do([op |-> "rem", k |-> k])
-Next == Len(hist) < MaxLen /\ (DoAdd \/ DoAddU \/ DoRem) /\ UNCHANGED <<init, pat>>
+(* persist + reload at any point of the history (never twice in a row) *)
+DoSync == "sync" \in OpKinds /\ pos' = pos /\ (IF hist = <<>> THEN TRUE ELSE hist[Len(hist)].op # "sync") /\ Do([op |-> "sync", k |-> 0])
+Next == Len(hist) < MaxLen /\ (DoAdd \/ DoAddU \/ DoRem \/ DoSync) /\ UNCHANGED <<init, pat>>
 Spec == Init /\ [][Next]_vars
 
 (* design properties of the abstract model (evaluated on complete histories) *)
